@@ -5,6 +5,23 @@ _ALL = ["C%02d" % i for i in range(1, 21)]
 
 CHECKS = [
     {
+        "property_id": "C01",
+        "level": "exploration",
+        "technique": "property-based testing (Hypothesis) with exhaustive enumeration of each transition's internal "
+                     "random draws (scripted forking generator) giving exact kernel rows; stationarity equation on "
+                     "integrator orbits",
+        "text": "For generated systems, integrators, step sizes and transition settings the real Transition.sample is "
+                "run from every start state of an orbit window under a generator that forks at every random decision, "
+                "so transition probabilities are exact (no sampling statistics); sum_i pi_i P(i->j) = pi_j is asserted "
+                "to 1e-9, and n_step / accept_stat are checked on every path against an independent record of the "
+                "integrator calls. Exhaustive over internal draws within a case; sampling over cases; tree depth <= 3 "
+                "(4 thorough), dimension <= 3.",
+        "design_ref": "DESIGN.md section 2, C01",
+        "note": "pi is computed with system.h (C05 checks it against the documented formula); cases whose "
+                "termination-criterion decisions are within 1e-7 of a tie are discarded (rounding of re-computed "
+                "states can flip them); the scripted generator exposes uniform()/integers() only.",
+    },
+    {
         "property_id": "C02",
         "level": "exploration",
         "technique": "property-based testing (Hypothesis): forward/backward round trip over generated integrator x "
